@@ -66,25 +66,39 @@ class Block:
 def parse_trace(h, obs):
     """Returns a list of steps: ('world', opts) | ('block', Block) | ('q', kind, arg, value) | ('restart',)"""
     steps = []
+    txlog = []        # the token lists of every transaction of the history, in order: `again <k>` is the k-th once more
     for op, o in zip(h.ops, obs):
         ws = op.split()
         if ws[0] == "world":
             steps.append(("world", dict(x.split("=") for x in ws[1:] if "=" in x), o))
+            txlog = []
         elif ws[0] == "block":
             m = BLK.match(o)
             b = Block()
             b.raw = o
             b.op = op
-            txs, cur = [], []
+            txs, cur, toks = [], [], []
+
+            def close(cur):
+                if len(cur) == 2 and cur[0] == "again" and cur[1].isdigit():
+                    k = int(cur[1])
+                    # (an index behind the log names a transaction of this very block)
+                    src = txlog[k] if k < len(txlog) else (toks[k - len(txlog)] if k - len(txlog) < len(toks) else None)
+                    if src is not None:
+                        cur = list(src)
+                toks.append(list(cur))
+                txs.append(Tx(cur))
             for w in ws[1:]:
                 if w == "|":
                     if cur:
-                        txs.append(Tx(cur))
+                        close(cur)
                     cur = []
                 else:
                     cur.append(w)
             if cur:
-                txs.append(Tx(cur))
+                close(cur)
+            if not (o or "").startswith("bad-op"):
+                txlog.extend(toks)
             b.txs = txs
             b.ok = m is not None
             if m:
